@@ -308,6 +308,122 @@ def ic (j : Json) : Except String Json := do
   pure (Json.mkObj [("ok", Json.bool true), ("holds", Json.bool (initialOK N infs recs row0 st sir))])
 end DrvPred
 
+/-! ### helpers (C20) -/
+namespace DrvHelp
+open Helpers
+
+def jOptInt (o : Option Int) : Json := match o with | some i => jInt i | none => Json.null
+
+def subsample (j : Json) : Except String Json := do
+  let report ← getList getRat (← fld j "report")
+  let times ← getList getRat (← fld j "times")
+  let series ← getList (getList (fun x => x.getInt?)) (← fld j "series")
+  -- python computes the first series first; errors are the same for all
+  let outs := series.map fun st => Helpers.subsample report times st
+  match outs.head? with
+  | some (.error e) => pure (errObj e)
+  | _ =>
+    let res ← outs.mapM fun o => match o with
+      | .ok l => pure (jArr jOptInt l)
+      | .error e => .error e
+    pure (Json.mkObj [("ok", Json.bool true), ("outs", Json.arr res.toArray),
+      ("spec", jArr (fun st => jArr (fun r => jOptInt (lastLE (times.zip st) r)) report) series)])
+
+def timeshift (j : Json) : Except String Json := do
+  let times ← getList getRat (← fld j "times")
+  let L ← getList getRat (← fld j "L")
+  let thr ← getRat (← fld j "thr")
+  match Helpers.timeShift times L thr with
+  | .ok t => pure (Json.mkObj [("ok", Json.bool true), ("t", jRat t)])
+  | .error e => pure (errObj e)
+
+def degree (j : Json) : Except String Json := do
+  let adj ← getList (getList getNat) (← fld j "adj")
+  let xs ← getList getRat (← fld j "xs")
+  let T ← getRat (← fld j "T")
+  let degs := adj.map (·.length)
+  let ks := List.range (maxDeg degs + 1)
+  pure (Json.mkObj [("ok", Json.bool true),
+    ("Pk", jArr (fun k => jRat (Pk degs k)) ks),
+    ("Pnk", jArr (fun k1 => jArr (fun k2 => jRat (Pnk adj k1 k2)) ks) ks),
+    ("psi", jArr (fun x => jRat (psi degs x)) xs),
+    ("psiP", jArr (fun x => jRat (psiP degs x)) xs),
+    ("psiDP", jArr (fun x => jRat (psiDP degs x)) xs),
+    ("R0", if psiP degs 1 = 0 then Json.null else jRat (R0 degs T)),
+    ("meank", jRat (meanDeg degs fun k => (k : Rat))),
+    ("meank2mk", jRat (meanDeg degs fun k => (k : Rat) * ((k : Rat) - 1)))])
+end DrvHelp
+
+/-! ### event-driven SIR (C11) -/
+namespace DrvES
+open EventSIR
+
+def getPairTableE (j : Json) : Except String (Node → Node → ERat) := do
+  let l ← getList (fun t => do
+    match ← getArr t with
+    | [u, v, w] => pure ((← getNat u), (← getNat v), (← getERat w))
+    | _ => .error "bad delay entry") j
+  pure fun u v => match l.find? (fun e => e.1 = u ∧ e.2.1 = v) with
+    | some e => e.2.2
+    | none => none
+
+def jTrans (e : Rat × Option Node × Node) : Json :=
+  Json.arr #[jRat e.1, (match e.2.1 with | some u => jNat u | none => Json.null), jNat e.2.2]
+
+def run (j : Json) : Except String Json := do
+  let n ← getNat (← fld j "n")
+  let adj ← getList (getList getNat) (← fld j "adj")
+  let tmin ← getRat (← fld j "tmin")
+  let tmax ← getERat (← fld j "tmax")
+  let infs ← getList getNat (← fld j "infs")
+  let recs ← getList getNat (← fld j "recs")
+  let nbrs := listFn adj []
+  let nodes := List.range n
+  let (joint, tables) ← (match fldOpt j "joint" with
+    | some jj => do
+      let l ← getList (fun e => do
+        match ← getArr e with
+        | [ds, d] =>
+          let ds ← getList (fun p => do
+            match ← getArr p with
+            | [v, w] => pure ((← getNat v), (← getERat w))
+            | _ => .error "bad joint pair") ds
+          pure (ds, (← getERat d))
+        | _ => .error "bad joint entry") jj
+      let jf : Node → List Node → List (Node × ERat) × ERat := fun u _ => l.getD u ([], none)
+      let delay : Node → Node → ERat := fun u v =>
+        match ((l.getD u ([], none)).1.find? fun p => p.1 = v) with | some p => p.2 | none => none
+      let dur : Node → ERat := fun u => (l.getD u ([], none)).2
+      pure (jf, (delay, dur))
+    | none => do
+      let delay ← getPairTableE (← fld j "delay")
+      let durl ← getList getERat (← fld j "dur")
+      let dur : Node → ERat := fun u => durl.getD u none
+      pure (jointOfTables delay dur, (delay, dur)))
+  let P : ESParams := { nodes := nodes, nbrs := nbrs, joint := joint, tmin := tmin, tmax := tmax }
+  let s := EventSIR.run P (fun _ => 0) infs recs (4 * n * n + 4 * n + 10)
+  let (ts, S, I, R) := rows s infs.length
+  let T := fppTime nodes nbrs tables.1 tables.2 tmin infs recs
+  -- predicate on the implementation's own output, when supplied
+  let holds ← (match fldOpt j "impl_trans", fldOpt j "impl_rec" with
+    | some it, some ir => do
+      let tr ← getList DrvPred.getTrans it
+      let rc ← getList (fun e => do
+        match ← getArr e with
+        | [t, v] => pure ((← getRat t), (← getNat v))
+        | _ => .error "bad rec") ir
+      pure (Json.bool (isFPP nodes nbrs tables.1 tables.2 tmin tmax infs recs (tr.map fun e => (e.t, e.src, e.tgt)) rc))
+    | _, _ => pure Json.null)
+  pure (Json.mkObj [("ok", Json.bool true), ("times", jArr jRat ts), ("S", jArr jInt S), ("I", jArr jInt I), ("R", jArr jInt R),
+    ("trans", jArr jTrans s.trans.reverse), ("queue_left", jNat s.queue.length),
+    ("status", jArr (fun u => jSt (s.status u)) nodes),
+    ("rec_time", jArr (fun u => jERat (s.recTime u)) nodes),
+    ("fpp", jArr (fun u => jERat (T u)) nodes), ("isFPP", holds),
+    ("out", jArr jNat (outComp nodes nbrs tables.1 tables.2 infs recs)),
+    ("H", Json.arr ((nodes.flatMap fun u => ((nbrs u).filter fun v => keeps nbrs tables.1 tables.2 u v).map fun v =>
+        Json.arr #[jNat u, jNat v, jERat (tables.1 u v)]).toArray))])
+end DrvES
+
 def dispatch (j : Json) : Except String Json := do
   let op ← getStr (← fld j "op")
   match op with
@@ -318,6 +434,10 @@ def dispatch (j : Json) : Except String Json := do
   | "tv" => DrvPred.tv j
   | "c10" => DrvPred.c10 j
   | "ic" => DrvPred.ic j
+  | "subsample" => DrvHelp.subsample j
+  | "timeshift" => DrvHelp.timeshift j
+  | "degree" => DrvHelp.degree j
+  | "esir" => DrvES.run j
   | _ => .error s!"unknown op {op}"
 
 def handle (line : String) : String :=
